@@ -88,3 +88,22 @@ impl OrderedFloat<f64> {
     #[verifier::external_body] pub fn cmp(&self, o: &OrderedFloat<f64>) -> (r: Ordering) ensures r == f_total_cmp(self.0, o.0) { unimplemented!() }
     #[verifier::external_body] pub fn eq(&self, o: &OrderedFloat<f64>) -> (r: bool) ensures r == (f_total_cmp(self.0, o.0) is Equal) { unimplemented!() }
 }
+// comparisons against a machine word (PartialOrd<usize>/PartialEq<usize> for Number: arities, lengths, indices)
+impl NumCmp<usize> for Integer { #[verifier::external_body] fn num_cmp(&self, o: &usize) -> (r: Ordering) ensures r == int_cmp(self.v(), *o as int) { unimplemented!() } }
+impl NumCmp<Integer> for Rational { #[verifier::external_body] fn num_cmp(&self, o: &Integer) -> (r: Ordering) ensures r == q_cmp(*self, q_of_int(o.v())) { unimplemented!() } }
+impl NumOrd<usize> for Integer {
+    #[verifier::external_body] fn num_eq(&self, o: &usize) -> (r: bool) ensures r == (self.v() == *o as int) { unimplemented!() }
+    #[verifier::external_body] fn num_gt(&self, o: &usize) -> (r: bool) ensures r == (self.v() > *o as int) { unimplemented!() }
+    #[verifier::external_body] fn num_lt(&self, o: &usize) -> (r: bool) ensures r == (self.v() < *o as int) { unimplemented!() }
+    #[verifier::external_body] fn num_partial_cmp(&self, o: &usize) -> (r: Option<Ordering>) ensures r == Some(int_cmp(self.v(), *o as int)) { unimplemented!() }
+}
+#[verifier::external_body] pub fn usize_as_f64(n: usize) -> (r: f64) ensures r == f_of_int(n as int) { unimplemented!() }
+#[verifier::external_body] pub fn usize_partial_cmp(a: usize, b: &usize) -> (r: Option<Ordering>) ensures r == Some(int_cmp(a as int, *b as int)) { unimplemented!() }
+#[verifier::external_body] pub fn usize_eq(a: usize, b: &usize) -> (r: bool) ensures r == (a == *b) { unimplemented!() }
+impl OrderedFloat<f64> {
+    #[verifier::external_body] pub fn partial_cmp(&self, o: &OrderedFloat<f64>) -> (r: Option<Ordering>) ensures r == Some(f_total_cmp(self.0, o.0)) { unimplemented!() }
+}
+// THE SPECIFICATION for a Number against a machine word: the word is the integer it denotes
+pub open spec fn num_cmp_word(a: Number, w: usize) -> Ordering {
+    if is_exact(a) { q_cmp(rval(a), q_of_int(w as int)) } else { f_total_cmp(flt(a), f_of_int(w as int)) }
+}
